@@ -310,6 +310,10 @@ def apply_op(ctx, op):
             return f"v{a}.fixed_len({k})"
         if kind == "format":
             fill, align, width, typ = op[2]
+            if fill == "text0":
+                # the fill character is the text's own first character (a rule drawn with '-', blanks padded with blanks)
+                fill = plain(m)[:1] if plain(m)[:1] not in ("", "\n") else "-"
+                ctx.classes.add("format_fill_is_a_character_of_the_text")
             spec = ""
             if align:
                 spec += (fill or "") + align
@@ -388,13 +392,14 @@ ALPHABET = "abcXYZ 01|é世\n"
 
 
 def st_text():
-    return st.text(ALPHABET, max_size=5)
+    return st.text(ALPHABET, max_size=5) | st.text(ALPHABET, max_size=5) | \
+        st.tuples(st.sampled_from(" 0é-_*|"), st.integers(1, 4)).map(lambda t: t[0] * t[1])
 
 
 def st_ops():
     idx = st.integers(0, 40)
     opt = st.none() | st.integers(0, 60)
-    fill = st.sampled_from(["", "_", "*", "<", ">", "^", "0", "5", " ", "s", "é", "{"])
+    fill = st.sampled_from(["", "_", "*", "<", ">", "^", "0", "5", " ", "s", "é", "{", "text0", "text0"])
     op = st.one_of(
         st.tuples(st.just("str"), st_text()),
         st.tuples(st.just("chunk"), st.integers(0, len(FMTS) - 1), st_text()),
